@@ -169,7 +169,7 @@ class C08(Property):
     props_file = "AbtemVerif/Props/C08.lean"
     drive_file = "AbtemVerif/Drive/C08.lean"
     trusted = [
-        "FFT: numpy/pyFFTW fft2/ifft2 form a FourierPair with the shift rule (proved for Mathlib's ZMod.dft, 1-D)",
+        "FFT: numpy/pyFFTW fft2/ifft2 form a FourierPair with the shift and DC rules (proved for Mathlib's ZMod.dft in 1-D and for the separable 2-D zmodPair2)",
         "NUMPY-INDEXING: np.add.at accumulates duplicate indices; np.roll / np.tile index maps (checked by correspondence on iota arrays)",
         "IEEE: float32 evaluation of the bilinear weights equals the exact value for the dyadic positions generated",
         "numba kernel interpolate_radial_functions: only its index/offset expressions are generated; the radial table lookup is not modelled",
